@@ -206,7 +206,10 @@ class Check:
             "seed": self.seed,
             "level": "other",
             "coverage": {
-                "explanation": self.explanation,
+                "explanation": self.explanation
+                + " Rules evaluated in this run (full texts under coverage.rules): "
+                + ", ".join(sorted(counts))
+                + ".",
                 "obligations": len(self.obligations),
                 "discharged": len(self.obligations) - len(failed),
                 "evaluations": len(self.obligations),
